@@ -252,12 +252,17 @@ end Source
 open Source Generated.SaveOrder in
 /-- **In the source, every validation step stands before `remove_dir_all`** — and nothing else does: the steps in front
     of the wipe are exactly the model's five validators (in any order among themselves), the wipe stands before
-    `create_dir(path)`, and every write after that. -/
+    `create_dir(path)`, and every write after that.  The extractor reads the part in front of the wipe strictly (every
+    statement is a validator of known shape or a listed pure binding; a file-system call there becomes a step `fs:<call>`,
+    an early `return Ok(..)` anywhere a step `return-ok`), so nothing in front of the wipe is silently ignored. -/
 theorem source_validators_precede_wipe :
     (modelValidators.all fun v => precedes saveSteps v "wipe") = true ∧
     ((saveSteps.takeWhile (· != "wipe".toList)).all fun s => modelValidators.any fun v => v.toList == s) = true ∧
     precedes saveSteps "wipe" "mkdir" = true ∧
-    ((saveSteps.filter isWrite).all fun w => precedes saveSteps "mkdir" (String.ofList w)) = true := by
+    ((saveSteps.filter isWrite).all fun w => precedes saveSteps "mkdir" (String.ofList w)) = true ∧
+    -- no early `return Ok(..)` anywhere (a write behind it would be unreachable), no file-system call in front of the wipe
+    (saveSteps.all fun s => s != "return-ok".toList) = true ∧
+    ((saveSteps.takeWhile (· != "wipe".toList)).all fun s => !("fs:".toList.isPrefixOf s)) = true := by
   decide
 
 open Source Generated.SaveOrder in
